@@ -10,6 +10,7 @@ import (
 	"context"
 	"errors"
 	"fmt"
+	"github.com/plgd-dev/go-coap/v3/net/blockwise"
 	"io"
 	"strings"
 	"time"
@@ -39,6 +40,7 @@ type cfg struct {
 	FailCopy  int  // >0: the write of copy number FailCopy (1 = first retransmission) fails with a transient error
 	DTLS      bool // over the real dtls/server.Session
 	BodyPeek  bool // the request has a payload whose reader the application has already read 4 bytes of
+	BlockResp bool // block-wise transfer enabled; the peer's piggybacked response is the first of two blocks, the follow-up block request is answered at once
 }
 
 func (c cfg) String() string {
@@ -54,6 +56,9 @@ func (c cfg) String() string {
 	}
 	if c.Eager {
 		x += " eager-peer"
+	}
+	if c.BlockResp {
+		x += " block-wise-response(2 blocks)"
 	}
 	if c.FailCopy > 0 {
 		x += fmt.Sprintf(" write-of-copy-%d-fails", c.FailCopy)
@@ -89,7 +94,13 @@ func scenario(c cfg) *mcx.Scenario {
 			reqs := make([]*reqState, nreq)
 			t0 := vrt.Now()
 			vrt.App("env", func() {
-				w = udpw.New(udpw.Opts{NStart: c.NStart, MaxRetransmit: c.R, AckTimeout: T, LimitTotal: 4, LimitEndpoint: 4, DTLS: c.DTLS})
+				w = udpw.New(udpw.Opts{NStart: c.NStart, MaxRetransmit: c.R, AckTimeout: T, LimitTotal: 4, LimitEndpoint: 4, DTLS: c.DTLS, BlockWise: c.BlockResp, SZX: blockwise.SZX16})
+				respBody := func(i int) string {
+					if c.BlockResp {
+						return fmt.Sprintf("resp-%d-abcdefghijklmnopq", i) // 24 bytes: blocks of 16 and 8
+					}
+					return fmt.Sprintf("resp-%d", i)
+				}
 				failedWrites := 0 // attempts that failed in the socket: they count as attempts, nothing reached the wire
 				if c.FailCopy > 0 {
 					copies := 0
@@ -165,10 +176,21 @@ func scenario(c cfg) *mcx.Scenario {
 					txs[i] = &tx{}
 				}
 				used := map[string]bool{}
-				scan := func() {
+				scan := func() (answered bool) {
 					for _, o := range w.NewOuts() {
 						if o.M.Type != message.Confirmable || o.M.Code != codes.GET {
 							continue // ACKs the conn sends for separate responses etc.
+						}
+						if b2, err := o.M.Options.GetUint32(message.Block2); err == nil && c.BlockResp {
+							// the follow-up request for the second block: answered at once
+							for i, r := range reqs {
+								if bytes.Equal(o.M.Token, r.token) && b2>>4 == 1 {
+									_ = w.Inject(message.Message{Type: message.Acknowledgement, Code: codes.Content, MessageID: o.M.MessageID, Token: r.token, Payload: []byte(respBody(i)[16:]),
+										Options: message.Options{{ID: message.Block2, Value: []byte{1<<4 | 0 | 0}}}})
+									answered = true
+								}
+							}
+							continue
 						}
 						for i, r := range reqs {
 							if bytes.Equal(o.M.Token, r.token) {
@@ -204,6 +226,7 @@ func scenario(c cfg) *mcx.Scenario {
 							txs[i].stopped = true
 						}
 					}
+					return answered
 				}
 				if c.Eager {
 					// the peer answers at once: its piggybacked response is processed at whatever point the scheduler
@@ -227,7 +250,9 @@ func scenario(c cfg) *mcx.Scenario {
 				exhaustedBefore := make([]bool, nreq) // a housekeeping tick ran after the last permitted copy
 				for {
 					vrt.Quiesce("env: settle")
-					scan()
+					for scan() {
+						vrt.Quiesce("env: follow-up block answered")
+					}
 					type evt struct {
 						name string
 						i    int
@@ -285,12 +310,23 @@ func scenario(c cfg) *mcx.Scenario {
 						t.acked, t.rst, t.stopped = true, true, true
 						_ = w.Inject(message.Message{Type: message.Reset, Code: codes.Empty, MessageID: t.mid})
 					case "piggy":
+						if c.BlockResp && (exhaustedBefore[e.i] || t.stopped) {
+							// (a block-wise response to an exchange that is over is observation O11 in DESIGN: the receive loop
+							// then waits for the NSTART slot the abandoned call still holds - no clause of this property)
+							hist = append(hist, fmt.Sprintf("piggy%d(not sent: the exchange is over)", e.i))
+							break
+						}
 						hist = append(hist, fmt.Sprintf("piggy%d", e.i))
 						if !exhaustedBefore[e.i] && !t.stopped {
 							t.respSent = true // delivered while the exchange is still pending: the call must succeed
 						}
 						t.acked, t.stopped = true, true
-						_ = w.Inject(message.Message{Type: message.Acknowledgement, Code: codes.Content, MessageID: t.mid, Token: reqs[e.i].token, Payload: []byte(fmt.Sprintf("resp-%d", e.i))})
+						if c.BlockResp {
+							_ = w.Inject(message.Message{Type: message.Acknowledgement, Code: codes.Content, MessageID: t.mid, Token: reqs[e.i].token, Payload: []byte(respBody(e.i)[:16]),
+								Options: message.Options{{ID: message.Block2, Value: []byte{0<<4 | 8 | 0}}}})
+						} else {
+							_ = w.Inject(message.Message{Type: message.Acknowledgement, Code: codes.Content, MessageID: t.mid, Token: reqs[e.i].token, Payload: []byte(fmt.Sprintf("resp-%d", e.i))})
+						}
 					case "sep":
 						hist = append(hist, fmt.Sprintf("sep%d", e.i))
 						_ = w.Inject(message.Message{Type: message.NonConfirmable, Code: codes.Content, MessageID: w.PeerMID(), Token: reqs[e.i].token, Payload: []byte(fmt.Sprintf("resp-%d", e.i))})
@@ -300,7 +336,9 @@ func scenario(c cfg) *mcx.Scenario {
 						reqs[e.i].cancel()
 					}
 				}
-				scan()
+				for scan() {
+					vrt.Quiesce("env: follow-up block answered")
+				}
 				// end-of-history obligations
 				for i, r := range reqs {
 					t := txs[i]
@@ -312,7 +350,7 @@ func scenario(c cfg) *mcx.Scenario {
 						if !delivered {
 							fail("success-without-response", "Do(%d) returned success although no response was ever delivered", i)
 						}
-						if r.body != fmt.Sprintf("resp-%d", i) || r.rtoken != fmt.Sprintf("%x", []byte(r.token)) {
+						if (r.body != respBody(i) && r.body != fmt.Sprintf("resp-%d", i)) || r.rtoken != fmt.Sprintf("%x", []byte(r.token)) {
 							fail("success-with-wrong-response", "Do(%d) returned body %q token %s", i, r.body, r.rtoken)
 						}
 					}
@@ -353,6 +391,8 @@ func main() {
 	scs = append(scs, scenario(cfg{R: 4, NStart: 1, Events: ev.Pick(r, 2, 3)}))
 	scs = append(scs, scenario(cfg{R: 2, NStart: 1, Events: 1, WriteFail: true}))
 	scs = append(scs, scenario(cfg{R: 2, NStart: 1, Events: ev.Pick(r, 2, 3), Deadline: true}))
+	scs = append(scs, scenario(cfg{R: 2, NStart: 1, Events: ev.Pick(r, 2, 3), Deadline: true, BlockResp: true}))
+	scs = append(scs, scenario(cfg{R: 2, NStart: 1, Events: ev.Pick(r, 2, 3), BlockResp: true}))
 	scs = append(scs, scenario(cfg{R: 1, NStart: 1, Events: ev.Pick(r, 2, 3), DTLS: true}))
 	scs = append(scs, scenario(cfg{R: 1, NStart: 1, Events: 0, Eager: true}))
 	for k := 1; k <= 2; k++ {
@@ -364,6 +404,7 @@ func main() {
 	}
 	scs = append(scs, serverConnScenarios()...)
 	scs = append(scs, c12Scenarios(r.Thorough())...)
+	scs = append(scs, sweepCancelScenarios(r.Thorough())...)
 	sum := mcx.Explore(r, scs, mcx.Config{Wall: ev.Pick(r, 3*time.Minute, 25*time.Minute)})
 	mcx.Report(r, scs, sum)
 	r.Set("distinct_nontrivial", int64(len(sum.Outcomes)))
